@@ -60,6 +60,21 @@ def run(chk, replay=None):
         chk.add("configs")
         if pairs and ci % 4 == 0:
             chk.sample({"config": name, "source": pairs[0]["text"], "instructions": len(pairs[0]["instrs"])})
+    # the systematic "interactions" family: every aliasing pattern between destination, operands and temporaries
+    cfgs = dict(configs)
+    inter_cfgs = ["native", "small-pool"] if quick else ["native", "small-pool", "fallback-unop", "assign-only-direct", "no-binops", "pool-1"]
+    stride = 4 if quick else 1
+    for name in inter_cfgs:
+        cfg = cfgs[name]
+        progs = (gen_progs.interaction_programs(cfg) + gen_progs.interaction_programs(cfg, start_id=10001, floats=True))[::stride]
+        pairs = harness_pairs(chk, progs, "inter_" + name)
+        chk.add("programs", len(pairs))
+        chk.add("interaction_programs", len(pairs))
+        chk.add("disagreements_checked", sum(1 for p in pairs if p["ninstr"] > 3))
+        tcfg = "ProductRaw_ne%s.cfg" % ("" if quick else "_wide")
+        cov = lib.product_check(chk, "ProductRaw", tcfg, pairs, "c02_inter_" + name, timeout=900 if quick else 3000, per_shard=60)
+        for k, v in cov.items():
+            chk.add(k, v)
     chk.set("explanation", "programs = (source tree, decoded real Lowerer output) pairs checked in the TLA+ product machine from every "
                            "valuation of the mentioned registers x difficulty; disagreements_checked = pairs where lowering emitted more "
                            "instructions than there are simple statements (temporaries / multi-instruction encodings)")
